@@ -1,4 +1,5 @@
 import CC.Lemmas.Prims
+import CC.Model.World
 /-! # C10 — failed operations leave keys untouched
 
 The model functions return the state *the code leaves behind on each path* (e.g. `updateMsk`
@@ -29,6 +30,67 @@ theorem refresh_failed_untouched (msk : Msk) (usk : Usk) (keep : Bool) (n : Rng)
     (h : (refresh msk usk keep n).1 = .error e) (hlvl : usk.id.length = msk.ntracers) :
     (refresh msk usk keep n).2.2.1 = usk ∧ (refresh msk usk keep n).2.1 = msk :=
   ⟨(refresh_error_unchanged msk usk keep n e h).1, (refresh_error_unchanged msk usk keep n e h).2 hlvl⟩
+
+/-- the result an operation of the world machine reports to the caller -/
+def opResult (w : World) : Op → Except Err Unit
+  | .edit e => (w.msk.structure_.apply e).map (fun _ => ())
+  | .update => (updateMsk w.msk w.msk.structure_.omega w.rng).1
+  | .rekey p => match w.msk.structure_.uskRights p with
+    | .error e => .error e
+    | .ok rights => (rekey w.msk rights w.rng).1
+  | .prune p => (w.msk.structure_.uskRights p).map (fun _ => ())
+  | .keygen p => match w.msk.structure_.uskRights p with
+    | .error e => .error e
+    | .ok rights => (uskKeygen w.msk rights w.rng).1.map (fun _ => ())
+  | .refresh usk keep => (refresh w.msk usk keep w.rng).1
+  | .draw _ => .ok ()
+
+/-- **Failed operations leave the master key untouched, as one statement over the world machine**:
+whatever the state and the arguments, when an operation reports an error the master key after it is
+the master key before it (for `refresh`: of a key of the master key's tracing level — the only kind
+the API produces). -/
+theorem failed_step_leaves_master_key (w : World) (op : Op) (e : Err) (h : opResult w op = .error e)
+    (hlvl : ∀ usk keep, op = .refresh usk keep → usk.id.length = w.msk.ntracers) :
+    (w.step op).msk = w.msk := by
+  cases op with
+  | edit ed =>
+    simp only [opResult] at h
+    simp only [World.step]
+    cases ha : w.msk.structure_.apply ed with
+    | ok s => rw [ha] at h; cases h
+    | error _ => rfl
+  | update =>
+    simp only [opResult] at h
+    exact update_failed_untouched _ _ _ e h
+  | rekey p =>
+    simp only [opResult] at h
+    simp only [World.step]
+    cases hr : w.msk.structure_.uskRights p with
+    | error _ => rfl
+    | ok rights =>
+      rw [hr] at h
+      exact rekey_failed_untouched _ _ _ e h
+  | prune p =>
+    simp only [opResult] at h
+    simp only [World.step]
+    cases hr : w.msk.structure_.uskRights p with
+    | error _ => rfl
+    | ok rights => rw [hr] at h; cases h
+  | keygen p =>
+    simp only [opResult] at h
+    simp only [World.step]
+    cases hr : w.msk.structure_.uskRights p with
+    | error _ => rfl
+    | ok rights =>
+      rw [hr] at h
+      simp only at h
+      cases hk : (uskKeygen w.msk rights w.rng).1 with
+      | ok u => rw [hk] at h; cases h
+      | error e' => exact keygen_failed_untouched _ _ _ e' hk
+  | refresh usk keep =>
+    simp only [opResult] at h
+    exact (refresh_failed_untouched _ _ _ _ e h (hlvl usk keep rfl)).2
+  | draw k => simp [opResult] at h
 
 /-- a master key holding one right -/
 def exMsk : Msk :=
